@@ -30,14 +30,16 @@ class C05(Prop):
   id = 'C05'
   lean_module = 'DK.Props.C05'
   uses_t1 = False
-  theorems = [
+  theorems = {'DK.Props.C05': [
     'DK.C05.solve_raises_on_failure', 'DK.C05.solve_raises_on_every_status', 'DK.C05.solve_ok_cases',
     'DK.C05.shortcut_checks_constraints', 'DK.C05.shortcut_ok_iff', 'DK.C05.all_withinTol_iff', 'DK.C05.allWithin_zero_iff', 'DK.C05.shortcut_unique',
     'DK.C05.plain_objective', 'DK.C05.prox_zero_is_none', 'DK.C05.prox_objective',
     'DK.C05.first_order_certificate', 'DK.C05.first_order_certificate_grad', 'DK.feasible_convex',
     'DK.C05.idevice2_closed_form', 'DK.C05.idevice2_first_order', 'DK.C05.idevice2_stationary',
     'DK.C05.device_closed_form', 'DK.C05.cdevice_closed_form',
-  ]
+  ],
+              'DK.Props.TreeGrad': ['DK.TreeGrad.first_order_certificate_mat', 'DK.TreeGrad.tree_grad_ineq', 'DK.TreeGrad.tree_first_order_certificate',
+                                    'DK.TreeGrad.tree_certified_sublevel', 'DK.TreeGrad.shipped_tree_first_order_certificate']}
   rule = ('fault enumeration: every SLSQP status 0..9 x success T/F x {leaf, tree, tree with MF adaptor} x prox None/0/>0 x s0 None/flat/device-shaped x callback; '
           'real solves: convex leaves of every class and trees (aggregate bounds, label balancing, MF adaptors), n <= 6 (8 thorough), all price shapes, prox on/off, '
           's0 given/None, all-fixed devices, infeasible models; non-trivial: a real solve whose returned flow has >= 1 active constraint or bound')
